@@ -10,6 +10,9 @@ from functools import lru_cache
 NT_NAMES = ["S", "A", "B", "C", "D", "E", "F"]
 T_CHARS = "abcdefgh"
 U_CHARS = "aλ€b𝄞cd"      # 1, 2, 3, 1, 4, 1, 1 bytes
+# terminals whose text spans lines (a multi-line string/heredoc kind of token): the END line/column of such a token and of
+# everything that ends with it are not `start column + length`
+M_CHARS = ["a\nb", "λ", "c\n", "b", "€\n\n€", "c", "d", "e"]
 
 
 class Gram:
@@ -64,6 +67,7 @@ class Gram:
             out.append("terminals")
             for n, c in self.terms.items():
                 tm = (" {" + ", ".join(self.term_meta[n]) + "}") if self.term_meta.get(n) else ""
+                c = c.replace("\n", "\\n")
                 out.append(f"{n}: '{c}'{tm};")
             if self.layout:
                 out.append("WS: /\\s+/;")
@@ -363,11 +367,11 @@ def earley_prefix(g, toks):
 # ---------- random generation ----------------------------------------------------------
 
 def random_grammar(rng, max_nts=4, max_alts=3, max_rhs=4, nterm=3, p_empty=0.15, p_nt=0.45, unicode=False,
-                   layout=None):
+                   layout=None, multiline=False):
     n_nts = rng.randint(1, max_nts)
     nts = NT_NAMES[:n_nts]
     tnames = ["T" + c for c in T_CHARS[:nterm]]
-    chars = U_CHARS if unicode else T_CHARS
+    chars = M_CHARS if multiline else U_CHARS if unicode else T_CHARS
     prods = []
     for nt in nts:
         nalts = rng.randint(1, max_alts)
